@@ -22,7 +22,11 @@ func at(idx uint64, e entry) entry { e.idx = idx; return e }
 
 func sReg(req structs.RegisterRequest, d string) entry {
 	req.Datacenter = "dc1"
-	return entry{data: enc(structs.RegisterRequestType, &req), kind: "register", desc: d}
+	e := entry{data: enc(structs.RegisterRequestType, &req), kind: "register", desc: d}
+	if req.Service != nil {
+		e.svcNames = []string{req.Service.Service, req.Service.ID, req.Service.Proxy.DestinationServiceName}
+	}
+	return e
 }
 func sDereg(req structs.DeregisterRequest, d string) entry {
 	req.Datacenter = "dc1"
